@@ -87,10 +87,26 @@ WHITELIST = [
     ("generate_ordered_map_to_left_both_unique", ["arr", "arr", "arr", "int"]),
     ("generate_ordered_map_to_left_right_unique", ["arr", "arr", "arr", "int"]),
     ("ordered_inner_map_both_unique", ["arr", "arr", "arr", "arr"]),
+    ("apply_spans_index_of_min_indexed", ["arr", "arr", "arr", "opt_arr"]),
+    ("apply_spans_index_of_max_indexed", ["arr", "arr", "arr", "opt_arr"]),
+    ("merge_journalled_entries", ["arr", "arr", "barr", "arr", "arr", "arr"]),
+    ("merge_indexed_journalled_entries_count", ["arr", "arr", "barr", "arr", "arr"]),
+    ("compare_indexed_rows_for_journalling", ["arr", "arr", "arr", "arr", "arr", "arr", "barr"]),
+    ("categorical_transform", ["arr", "int", "arr2", "arr", "arr", "arr", "arr", "arr"]),
+    ("leaky_categorical_transform", ["arr", "arr", "arr", "int", "arr2", "arr", "arr", "arr", "arr", "arr"]),
+    ("fixed_string_transform", ["arr2", "arr", "arr", "int", "int", "int", "arr"]),
+    ("merge_indexed_journalled_entries", ["arr", "arr", "barr", "arr", "arr", "arr", "arr", "arr", "arr"]),
+    ("ordered_map_valid_indexed_partial", ["arr", "int", "int", "arr", "int", "int", "arr", "int", "arr", "arr"] + ["int"] * 5),
+    ("_apply_spans_concat_2", ["arr", "arr", "arr", "arr", "arr"] + ["int"] * 6),
+    ("ordered_inner_map_result_size", ["arr", "arr"]),
+    ("compare_arrays", ["arr", "arr"]),
+    ("safe_map_values", ["arr", "arr", "barr", "opt_int"]),
+    ("ordered_inner_map_left_unique", ["arr", "arr", "arr", "arr"]),
+    ("ordered_inner_map", ["arr", "arr", "arr", "arr"]),
 ]
 
 LEAN_T = {"int": "Int", "bool": "Bool", "arr": "List Int", "barr": "List Bool", "opt_arr": "Option (List Int)",
-          "arr2": "List (List Int)"}
+          "arr2": "List (List Int)", "opt_int": "Option Int"}
 DEFAULT = {"int": "0", "bool": "false", "arr": "[]", "barr": "[]", "arr2": "[]"}
 ELEM = {"arr": "int", "barr": "bool", "arr2": "arr"}        # arr2: a 2-D integer array, passed as the list of its rows
 
@@ -208,8 +224,10 @@ class Kernel:
         self.ptypes = list(ptypes)
         self.body = rewrite_continue(drop_message_strings(strip_doc(fn.body)))
         self.rename()
-        self.env = {f"p{k}": ("arr" if t == "opt_arr" else t) for k, t in enumerate(ptypes)}
+        self.env = {f"p{k}": ({"opt_arr": "arr", "opt_int": "int"}.get(t, t)) for k, t in enumerate(ptypes)}
         self.opt = {f"p{k}" for k, t in enumerate(ptypes) if t == "opt_arr"}    # optional parameters (static)
+        # optional scalars (`x=None`, tested with `x is None` / `x is not None` anywhere): a value and a presence flag
+        self.optint = {f"p{k}" for k, t in enumerate(ptypes) if t == "opt_int"}
         self.loops = {}          # id(node) -> (k, has_break)
         self.number_loops()
         self.find_mutated()
@@ -274,29 +292,37 @@ class Kernel:
         return {f"p{k}" for k, t in enumerate(self.ptypes) if t == "opt_arr"}
 
     def number_loops(self):
+        """loops[id(node)] = [k, has_break, contains a while, contains a `return` (at any depth), has a flagged `continue`]"""
         k = 0
         for b in self.body:
             for n in ordered_nodes(b):
                 if isinstance(n, (ast.For, ast.While)):
                     k += 1
-                    self.loops[id(n)] = [k, False, self.has_while(n.body)]
+                    self.loops[id(n)] = [k, False, self.has_while(n.body), False, False]
                     if n.orelse:
                         raise Unsupported("loop with an else clause")
 
-        def mark(stmts, cur):
+        def mark(stmts, stack):
             for st in stmts:
                 if isinstance(st, ast.Break):
-                    if cur is None:
+                    if not stack:
                         raise Unsupported("break outside a loop")
-                    self.loops[id(cur)][1] = True
+                    self.loops[id(stack[-1])][1] = True
                 elif isinstance(st, ast.Continue):
-                    raise Unsupported("continue")
+                    # (the form `if c: …; continue` directly in a loop body was rewritten to if/else by `rewrite_continue`)
+                    if not stack:
+                        raise Unsupported("continue outside a loop")
+                    self.loops[id(stack[-1])][4] = True
+                elif isinstance(st, ast.Return):
+                    for lp in stack:
+                        self.loops[id(lp)][3] = True
                 elif isinstance(st, (ast.For, ast.While)):
-                    mark(st.body, st)
+                    mark(st.body, stack + [st])
                 elif isinstance(st, ast.If):
-                    mark(st.body, cur)
-                    mark(st.orelse, cur)
-        mark(self.body, None)
+                    mark(st.body, stack)
+                    mark(st.orelse, stack)
+        mark(self.body, [])
+        self.loop_return = any(v[3] for v in self.loops.values())
 
     @staticmethod
     def has_while(stmts):
@@ -310,6 +336,28 @@ class Kernel:
         if isinstance(st, ast.If):
             return any(Kernel.may_break(x) for x in st.body + st.orelse)
         return False
+
+    @staticmethod
+    def may_continue(st):
+        """does executing `st` possibly raise the continue flag of the loop it sits in?"""
+        if isinstance(st, ast.Continue):
+            return True
+        if isinstance(st, ast.If):
+            return any(Kernel.may_continue(x) for x in st.body + st.orelse)
+        return False
+
+    @staticmethod
+    def may_return(st):
+        """does `st` contain a `return` (at any depth, nested loops included)?"""
+        return any(isinstance(n, ast.Return) for n in ordered_nodes(st))
+
+    def skip_cond(self, st, loop):
+        """the flags that, once `st` has run inside `loop`, make the rest of the enclosing block be skipped"""
+        if loop is None:
+            return []
+        k = self.loops[id(loop)][0]
+        return ([f"s.brk{k}"] if self.may_break(st) else []) + ([f"s.cnt{k}"] if self.may_continue(st) else []) + \
+            (["s.ret"] if self.may_return(st) else [])
 
     # ------------------------------------------------------------------------------------------------------------
     # expressions: returns (type, lean term, binds) — binds = [(tmp, fallible lean term)] to be bound first, in order
@@ -326,6 +374,9 @@ class Kernel:
         if name in self.maybe_none:
             raise Unsupported(f"use of the optional parameter `{self.orig[name]}` before it is given a default")
         t = self.env[name]
+        if name in self.optint:
+            tmp = self.fresh()
+            return t, tmp, [(tmp, f"readOptE s.{name}_some s.{name} {lean_str(name)}")]
         if name in self.locals and name not in defined:
             self.read_unbound.add(name)
             if name in self.flagged:
@@ -382,6 +433,10 @@ class Kernel:
                         cond = f"if {xl} then .ok true else\n{ind(inner, 4)}"
                     x, b = tmp, bl + [(tmp, cond)]
             return "bool", x, b
+        if isinstance(n, ast.Compare) and len(n.ops) == 1 and isinstance(n.ops[0], (ast.Is, ast.IsNot)) and \
+                isinstance(n.left, ast.Name) and n.left.id in self.optint and is_none(n.comparators[0]):
+            flag = f"s.{n.left.id}_some"
+            return "bool", (f"(!{flag})" if isinstance(n.ops[0], ast.Is) else flag), []
         if isinstance(n, ast.Compare):
             operands = [n.left] + list(n.comparators)
             parts = [self.expr(o, defined) for o in operands]
@@ -413,6 +468,17 @@ class Kernel:
                 return ta, f"(if {xc} then {xa} else {xb})", bc
             tmp = self.fresh()
             return ta, tmp, bc + [(tmp, f"if {xc} then\n{ind(self.wrap(ba, '.ok ' + xa), 4)}\n  else\n{ind(self.wrap(bb, '.ok ' + xb), 4)}")]
+        if isinstance(n, ast.Attribute) and n.attr == "size":
+            t, x, b = self.expr(n.value, defined)
+            if t not in ("arr", "barr"):
+                raise Unsupported(f".size of a {t}")
+            return "int", f"(pyLen {x})", b
+        if isinstance(n, ast.Subscript) and isinstance(n.value, ast.Attribute) and n.value.attr == "shape" and \
+                isinstance(n.slice, ast.Constant) and n.slice.value == 0:
+            t, x, b = self.expr(n.value.value, defined)             # `a.shape[0]`: the length of the first dimension
+            if t not in ELEM:
+                raise Unsupported(f".shape of a {t}")
+            return "int", f"(pyLen {x})", b
         if isinstance(n, ast.Subscript):
             tb_, xb_, bb_ = self.expr(n.value, defined)
             if tb_ not in ELEM:
@@ -434,6 +500,19 @@ class Kernel:
                         binds += b
                         bounds.append(f"(some {x})")
                 return tb_, f"(pySlice {xb_} {bounds[0]} {bounds[1]})", binds
+            if isinstance(sl, ast.Tuple):
+                # `a[i, j]` on a 2-D array (the list of its rows): row `i`, then entry `j`, both checked
+                if tb_ != "arr2" or len(sl.elts) != 2:
+                    raise Unsupported(f"tuple subscript of a {tb_}")
+                (ti, xi, bi), (tj, xj, bj) = self.expr(sl.elts[0], defined), self.expr(sl.elts[1], defined)
+                if ti != "int" or tj != "int":
+                    raise Unsupported("2-D subscript with a non-integer index")
+                row, tmp = self.fresh(), self.fresh()
+                return "int", tmp, bb_ + bi + bj + [(row, f"idxE {xb_} {xi} {site}"), (tmp, f"idxE {row} {xj} {site}")]
+            c = self.neg_const(sl)
+            if c is not None:
+                tmp = self.fresh()
+                return ELEM[tb_], tmp, bb_ + [(tmp, f"idxNegE {xb_} {c} {site}")]
             ti, xi, bi = self.expr(sl, defined)
             tmp = self.fresh()
             if ti == "int":
@@ -451,6 +530,14 @@ class Kernel:
             return "arr", "[" + ", ".join(p[1] for p in parts) + "]", [b for p in parts for b in p[2]]
         raise Unsupported(f"expression {type(n).__name__}")
 
+    @staticmethod
+    def neg_const(sl):
+        """`-c` for a literal c > 0 (a constant negative subscript) → c"""
+        if isinstance(sl, ast.UnaryOp) and isinstance(sl.op, ast.USub) and isinstance(sl.operand, ast.Constant) and \
+                isinstance(sl.operand.value, int) and not isinstance(sl.operand.value, bool) and sl.operand.value > 0:
+            return sl.operand.value
+        return None
+
     def call(self, n, defined):
         f = ast.unparse(n.func)
         if f == "len" and len(n.args) == 1 and not n.keywords:
@@ -458,6 +545,16 @@ class Kernel:
             if t not in ELEM:
                 raise Unsupported(f"len of a {t}")
             return "int", f"(pyLen {x})", b
+        if f in ("int", "np.int64", "numpy.int64") and len(n.args) == 1 and not n.keywords:
+            t, x, b = self.expr(n.args[0], defined)
+            if t != "int":
+                raise Unsupported(f"{f} of a {t}")
+            return "int", x, b                    # ints are unbounded: the cast is the identity (fixed width is not modelled)
+        if f in ("np.int8", "numpy.int8") and len(n.args) == 1 and not n.keywords:
+            t, x, b = self.expr(n.args[0], defined)
+            if t != "int":
+                raise Unsupported(f"{f} of a {t}")
+            return "int", f"(pyInt8 {x})", b      # the one narrowing cast that is modelled: the value as a signed byte
         if f in ("min", "max") and len(n.args) == 2 and not n.keywords:
             (ta, xa, ba), (tb, xb, bb) = self.expr(n.args[0], defined), self.expr(n.args[1], defined)
             if ta != "int" or tb != "int":
@@ -472,7 +569,7 @@ class Kernel:
                 if kw.arg != "dtype" or dt is not None:
                     raise Unsupported("np.zeros keyword")
                 dt = kw.value
-            isb = dt is not None and ast.unparse(dt) in ("bool", "np.bool_", "numpy.bool_", "np.bool")
+            isb = dt is not None and ast.unparse(dt) in ("bool", "np.bool_", "numpy.bool_", "np.bool", "numba_bool")
             tmp = self.fresh()
             return ("barr" if isb else "arr"), tmp, b + [(tmp, f"{'npZerosB' if isb else 'npZeros'} {x}")]
         if f in ("np.full", "numpy.full") and len(n.args) == 2:
@@ -588,6 +685,10 @@ class Kernel:
                             b = b + bi
                             bounds.append(f"(some {xi})")
                     b = b + [(tmp, f"setSliceE {xb_} {bounds[0]} {bounds[1]} {x}")]
+                elif self.neg_const(tg.slice) is not None:
+                    if t != ELEM[tb_]:
+                        raise Unsupported(f"store of a {t} into a {tb_}")
+                    b = b + [(tmp, f"setIdxNegE {xb_} {self.neg_const(tg.slice)} {x} {site}")]
                 else:
                     ti, xi, bi = self.expr(tg.slice, defined)
                     if ti != "int" or t != ELEM[tb_]:
@@ -631,14 +732,30 @@ class Kernel:
             return (".ok s" if final is None else final(defined)), defined
         st, rest = stmts[0], stmts[1:]
         if isinstance(st, ast.Return):
-            raise Unsupported("return that is not the last statement of the function")
+            if loop is None:
+                raise Unsupported("return that is not the last statement of the function")
+            if rest:
+                raise Unsupported("statements after return")
+            return self.loop_return_term(st, defined), defined
         if isinstance(st, ast.Break):
             if rest:
                 raise Unsupported("statements after break")
             k = self.loops[id(loop)][0]
             return f"let s := {{ s with brk{k} := true }}\n.ok s", defined
+        if isinstance(st, ast.Continue):
+            if rest:
+                raise Unsupported("statements after continue")
+            k = self.loops[id(loop)][0]
+            return f"let s := {{ s with cnt{k} := true }}\n.ok s", defined
+        if isinstance(st, ast.Assert):
+            # `assert c`: the rest of the block runs when `c` holds, AssertionError otherwise
+            t, x, b = self.expr(st.test, defined)
+            if t != "bool":
+                raise Unsupported("assert on a non-boolean")
+            rterm, d2 = self.block(rest, defined, loop, top, final)
+            return self.wrap(b, f"if {x} then\n{ind(rterm, 2)}\nelse\n  .error (.other {lean_str('AssertionError')})"), d2
         if isinstance(st, ast.If) and loop is None and final is not None and self.opt_idiom(st) is None and \
-                any(isinstance(n, ast.Return) for n in ordered_nodes(st)):
+                self.direct_return(st):
             # `if c: …; return E` at function level: each branch is continued separately (a branch that ends in `return`
             # yields the result, the other one runs the rest of the function); at most one branch may fall through
             t, x, b = self.expr(st.test, defined)
@@ -663,9 +780,16 @@ class Kernel:
             if not rest and final is None:
                 return term, d1
             rterm, d2 = self.block(rest, d1, loop, top, final)
-            if loop is not None and self.may_break(st):
-                k = self.loops[id(loop)][0]
-                rterm = f"if s.brk{k} then .ok s else\n{rterm}"
+            conds = self.skip_cond(st, loop)
+            if loop is None and self.may_return(st):
+                # a loop that contains `return` has run: when it returned, the function's result is in the result slots
+                conds = ["s.ret"]
+            if conds:
+                skip = ".ok s" if final is None else self.ret_from_slots()
+                if skip == ".ok s":
+                    rterm = f"if {' || '.join(conds)} then .ok s else\n{rterm}"
+                else:
+                    rterm = f"if {' || '.join(conds)} then\n{ind(skip, 2)}\nelse\n{ind(rterm, 2)}"
             return f"bindE ({ind(term, 2).lstrip()}) fun s =>\n{rterm}", d2
         lines, d1, terminal = self.simple(st, defined, top)
         if terminal:
@@ -674,6 +798,39 @@ class Kernel:
             return "\n".join(lines), d1
         rterm, d2 = self.block(rest, d1, loop, top, final)
         return "\n".join(lines + [rterm]), d2
+
+    @staticmethod
+    def direct_return(st):
+        """a `return` of this `if` statement that is not inside a loop nested in it"""
+        if isinstance(st, ast.Return):
+            return True
+        if isinstance(st, ast.If):
+            return any(Kernel.direct_return(x) for x in st.body + st.orelse)
+        return False
+
+    def ret_parts(self, ret, d):
+        if ret.value is None:
+            raise Unsupported("return without a value")
+        elts = ret.value.elts if isinstance(ret.value, ast.Tuple) else [ret.value]
+        parts = [self.expr(e, d) for e in elts]
+        types = [p[0] for p in parts] + [self.var(p, d)[0] for p in self.mutated]
+        if self.ret_types is not None and self.ret_types != types:
+            raise Unsupported("return statements of different types")
+        self.ret_types = types
+        return parts
+
+    def loop_return_term(self, ret, d):
+        """`return E` inside a loop: the value goes into the result slots `rv<j>`, the flag `ret` stops every enclosing loop
+        and makes the rest of every enclosing block be skipped"""
+        parts = self.ret_parts(ret, d)
+        binds = [b for p in parts for b in p[2]]
+        slots = "".join(f", rv{j} := {p[1]}" for j, p in enumerate(parts))
+        return self.wrap(binds, f"let s := {{ s with ret := true{slots} }}\n.ok s")
+
+    def ret_from_slots(self):
+        n = len(self.ret_types) - len(self.mutated)
+        vals = [f"s.rv{j}" for j in range(n)] + [f"s.{p}" for p in self.mutated]
+        return ".ok " + (vals[0] if len(vals) == 1 else "(" + ", ".join(vals) + ")")
 
     def compound(self, st, defined, loop):
         if isinstance(st, ast.If):
@@ -687,7 +844,9 @@ class Kernel:
                 e, de = self.block(st.orelse, defined, loop)
             term = f"if {x} then\n{ind(a, 2)}\nelse\n{ind(e, 2)}"
             return self.wrap(b, term), da & de
-        k, has_break, inner_while = self.loops[id(st)]
+        k, has_break, inner_while, has_ret, has_cont = self.loops[id(st)]
+        stops = ([f"s.brk{k}"] if has_break else []) + (["s.ret"] if has_ret else [])
+        stop_fn = f"(fun s => {' || '.join(stops)})"
         fuel_p = " (fuel : Nat)" if inner_while else ""
         fuel_a = " fuel" if inner_while else ""
         doc = f"/-- loop L{k}: `{self.src_loop_text[id(st)]}` -/"
@@ -705,21 +864,21 @@ class Kernel:
                 for p in parts:
                     binds += p[2]
                 lo, hi = ("0", parts[0][1]) if len(parts) == 1 else (parts[0][1], parts[1][1])
-                head = f"forRangeB {lo} {hi} (fun s => s.brk{k})" if has_break else f"forRangeE {lo} {hi}"
+                head = f"forRangeB {lo} {hi} {stop_fn}" if stops else f"forRangeE {lo} {hi}"
                 vt = "int"
             else:
                 t, x, b = self.expr(it, defined)
                 if t not in ELEM:
                     raise Unsupported("for over something that is neither range(...) nor an array")
                 binds += b
-                head = f"forEachB {x} (fun s => s.brk{k})" if has_break else f"forEachE {x}"
+                head = f"forEachB {x} {stop_fn}" if stops else f"forEachE {x}"
                 vt = ELEM[t]
             if v in self.env and self.env[v] != vt:
                 raise Unsupported(f"`{self.orig[v]}` is assigned values of type {self.env[v]} and {vt}")
             self.env[v] = vt
             body, _ = self.block(st.body, defined | {v}, st)
             self.defs.append(f"{doc}\ndef body_L{k}{fuel_p} (s : St) : Except Err St :=\n{ind(body, 2)}")
-            flag = f", {v}_def := true" if v in self.flagged else ""
+            flag = (f", {v}_def := true" if v in self.flagged else "") + (f", cnt{k} := false" if has_cont else "")
             term = f"{head} (fun k s => body_L{k}{fuel_a} {{ s with {v} := k{flag} }}) s"
             if has_break:
                 term = f"bindE ({term}) fun s =>\n.ok {{ s with brk{k} := false }}"
@@ -729,14 +888,16 @@ class Kernel:
         if t != "bool":
             raise Unsupported("while on a non-boolean")
         body, _ = self.block(st.body, defined, st)
+        if has_cont:
+            body = f"let s := {{ s with cnt{k} := false }}\n{body}"
         if b:
             g = self.wrap(b, f".ok {x}")
-            if has_break:
-                g = f"if s.brk{k} then .ok false else\n{g}"
+            if stops:
+                g = f"if {' || '.join(stops)} then .ok false else\n{g}"
             self.defs.append(f"{doc}\ndef guardE_L{k} (s : St) : Except Err Bool :=\n{ind(g, 2)}")
             loopterm = f"whileG guardE_L{k} (body_L{k}{fuel_a}) fuel s"
         else:
-            g = f"(!s.brk{k} && {x})" if has_break else x
+            g = "(" + "".join(f"!{c} && " for c in stops) + f"{x})" if stops else x
             self.defs.append(f"{doc}\ndef guard_L{k} (s : St) : Bool :=\n  {g}")
             loopterm = f"whileE guard_L{k} (body_L{k}{fuel_a}) fuel s"
         self.defs.append(f"def body_L{k}{fuel_p} (s : St) : Except Err St :=\n{ind(body, 2)}")
@@ -776,24 +937,42 @@ class Kernel:
         fuel = self.has_while(self.body)
         fields = []
         for k, t in enumerate(self.ptypes):
-            fields.append(f"  p{k} : {LEAN_T['arr' if t == 'opt_arr' else t]}")
+            fields.append(f"  p{k} : {LEAN_T[{'opt_arr': 'arr', 'opt_int': 'int'}.get(t, t)]}")
+            if t == "opt_int":
+                fields.append(f"  p{k}_some : Bool")
         for v in self.locals:
             fields.append(f"  {v} : {LEAN_T[self.env[v]]}")
             if v in self.flagged:
                 fields.append(f"  {v}_def : Bool")
-        for node_id, (k, hb, _) in sorted(self.loops.items(), key=lambda kv: kv[1][0]):
+        for node_id, (k, hb, _, _, _) in sorted(self.loops.items(), key=lambda kv: kv[1][0]):
             if hb:
                 fields.append(f"  brk{k} : Bool")
+        for node_id, (k, _, _, _, hc) in sorted(self.loops.items(), key=lambda kv: kv[1][0]):
+            if hc:
+                fields.append(f"  cnt{k} : Bool")
+        nslots = len(self.ret_types) - len(self.mutated) if self.loop_return else 0
+        if self.loop_return:
+            fields.append("  ret : Bool")
+            for j in range(nslots):
+                fields.append(f"  rv{j} : {LEAN_T[self.ret_types[j]]}")
         init = []
         for k, t in enumerate(self.ptypes):
-            init.append(f"p{k} := " + (f"p{k}.getD []" if t == "opt_arr" else f"p{k}"))
+            init.append(f"p{k} := " + (f"p{k}.getD []" if t == "opt_arr" else f"p{k}.getD 0, p{k}_some := p{k}.isSome"
+                                       if t == "opt_int" else f"p{k}"))
         for v in self.locals:
             init.append(f"{v} := {DEFAULT[self.env[v]]}")
             if v in self.flagged:
                 init.append(f"{v}_def := false")
-        for node_id, (k, hb, _) in sorted(self.loops.items(), key=lambda kv: kv[1][0]):
+        for node_id, (k, hb, _, _, _) in sorted(self.loops.items(), key=lambda kv: kv[1][0]):
             if hb:
                 init.append(f"brk{k} := false")
+        for node_id, (k, _, _, _, hc) in sorted(self.loops.items(), key=lambda kv: kv[1][0]):
+            if hc:
+                init.append(f"cnt{k} := false")
+        if self.loop_return:
+            init.append("ret := false")
+            for j in range(nslots):
+                init.append(f"rv{j} := {DEFAULT[self.ret_types[j]]}")
         params = " ".join(f"(p{k} : {LEAN_T[t]})" for k, t in enumerate(self.ptypes)) + (" (fuel : Nat)" if fuel else "")
         names = " ".join(f"{c}={self.orig[c]}" for c in [f"p{k}" for k in range(len(self.ptypes))] + self.locals)
         run_body = f"let s : St := {{ {', '.join(init)} }}\n{main}"
@@ -807,16 +986,16 @@ class Kernel:
 
     def ret_final(self, ret, d):
         """`return E` (E a tuple: a product); the final contents of the arrays the kernel wrote into are appended"""
-        if isinstance(ret.value, ast.Tuple):
-            parts = [self.expr(e, d) for e in ret.value.elts]       # (empty for a function without `return`)
+        if isinstance(ret.value, ast.Tuple) and not ret.value.elts:
+            parts = []                                              # a function without `return`
+            types = [self.var(p, d)[0] for p in self.mutated]
+            if self.ret_types is not None and self.ret_types != types:
+                raise Unsupported("return statements of different types")
+            self.ret_types = types
         else:
-            parts = [self.expr(ret.value, d)]
-        parts += [self.var(p, d) for p in self.mutated]
+            parts = self.ret_parts(ret, d)
+        parts = parts + [self.var(p, d) for p in self.mutated]
         binds = [b for p in parts for b in p[2]]
-        types = [p[0] for p in parts]
-        if self.ret_types is not None and self.ret_types != types:
-            raise Unsupported("return statements of different types")
-        self.ret_types = types
         rterm = parts[0][1] if len(parts) == 1 else "(" + ", ".join(p[1] for p in parts) + ")"
         return self.wrap(binds, f".ok {rterm}")
 
@@ -840,7 +1019,7 @@ class Kernel:
     def dispatch_arm(self):
         n = len(self.ptypes)
         conv = {"int": "asInt?", "bool": "asBool?", "arr": "asArr?", "barr": "asBArr?", "opt_arr": "asOptArr?",
-                "arr2": "asArr2?"}
+                "arr2": "asArr2?", "opt_int": "asOptInt?"}
         mk = {"int": "Val.int", "bool": "Val.bool", "arr": "Val.arr", "barr": "Val.barr", "arr2": "Val.arr2"}
         pats = ", ".join(f"a{k}" for k in range(n))
         scrut = ", ".join(f"a{k}.{conv[t]}" for k, t in enumerate(self.ptypes))
